@@ -19,19 +19,19 @@ def _rand(c):
 BUS_PROPS = ('C01', 'C02', 'C03', 'C04', 'C05', 'C06', 'C08', 'C09', 'C11', 'C13', 'C14', 'C15')
 
 # serial buses, no forwarding: the "clean" class for most ordering/completion oracles
-fam(ScenarioFamily('serial', BUS_PROPS, _rand(gen.cfg(p_idle=0.08)), 400, 8000))
+fam(ScenarioFamily('serial', BUS_PROPS, _rand(gen.cfg(p_idle=0.08)), 800, 8000))
 # one serial bus: no third party can hold an awaited child, so C04 is strict here
-fam(ScenarioFamily('single', BUS_PROPS, _rand(gen.cfg(nb=(1, 1), p_idle=0.08, p_redisp=0.04, p_actor_redisp=0.08, p_explicit_parent=0.05)), 300, 6000))
+fam(ScenarioFamily('single', BUS_PROPS, _rand(gen.cfg(nb=(1, 1), p_idle=0.08, p_redisp=0.04, p_actor_redisp=0.08, p_explicit_parent=0.05)), 600, 6000))
 # deeper trees, more buses, long-running fire-and-forget descendants
-fam(ScenarioFamily('deep', BUS_PROPS, _rand(gen.cfg(nb=(2, 4), levels=6, prog_len=(1, 3), handlers_per=(1, 1, 2), p_wild=0.15, p_idle=0.05)), 200, 4000))
+fam(ScenarioFamily('deep', BUS_PROPS, _rand(gen.cfg(nb=(2, 4), levels=6, prog_len=(1, 3), handlers_per=(1, 1, 2), p_wild=0.15, p_idle=0.05)), 400, 4000))
 # parallel handlers
-fam(ScenarioFamily('parallel', BUS_PROPS, _rand(gen.cfg(p_par=0.6, p_idle=0.05)), 200, 4000))
+fam(ScenarioFamily('parallel', BUS_PROPS, _rand(gen.cfg(p_par=0.6, p_idle=0.05)), 400, 4000))
 # forwarding between buses (one edge per (src,dst))
-fam(ScenarioFamily('forward', BUS_PROPS + ('C07',), _rand(gen.cfg(nb=(2, 4), p_fwd=1.0, p_idle=0.05)), 300, 6000))
+fam(ScenarioFamily('forward', BUS_PROPS + ('C07',), _rand(gen.cfg(nb=(2, 4), p_fwd=1.0, p_idle=0.05)), 600, 6000))
 # forwarding combined with small history limits (loop prevention must not depend on what the history still holds)
-fam(ScenarioFamily('forward_history', BUS_PROPS + ('C07',), _rand(gen.cfg(nb=(2, 4), p_fwd=1.0, hist=[1, 2, 3, 5, 10], actor_ops=(3, 9), p_idle=0.03)), 200, 4000))
+fam(ScenarioFamily('forward_history', BUS_PROPS + ('C07',), _rand(gen.cfg(nb=(2, 4), p_fwd=1.0, hist=[1, 2, 3, 5, 10], actor_ops=(3, 9), p_idle=0.03)), 400, 4000))
 # small history limits
-fam(ScenarioFamily('history', BUS_PROPS, _rand(gen.cfg(hist=[1, 2, 3, 5, 10], nb=(1, 3), actor_ops=(3, 9), p_idle=0.05)), 300, 6000))
+fam(ScenarioFamily('history', BUS_PROPS, _rand(gen.cfg(hist=[1, 2, 3, 5, 10], nb=(1, 3), actor_ops=(3, 9), p_idle=0.05)), 600, 6000))
 
 
 CHECKS: dict = {}
@@ -134,11 +134,11 @@ class GraphFamily(ScenarioFamily):
 
 
 fam(GraphFamily())
-fam(ScenarioFamily('recursion', ('C01', 'C03', 'C15', 'C11'), gen.recursion_scenario, 120, 1200))
-fam(ScenarioFamily('capacity', ('C14', 'C13'), gen.capacity_scenario, 150, 2000))
-fam(ScenarioFamily('spawn', ('C06', 'C04', 'C05', 'C02'), gen.spawn_scenario, 100, 1500))
-fam(ScenarioFamily('dupfwd', BUS_PROPS + ('C07',), gen.dupfwd_scenario, 150, 3000))
-fam(ScenarioFamily('later', BUS_PROPS, gen.later_scenario, 200, 4000))
+fam(ScenarioFamily('recursion', ('C01', 'C03', 'C15', 'C11'), gen.recursion_scenario, 240, 1200))
+fam(ScenarioFamily('capacity', ('C14', 'C13'), gen.capacity_scenario, 300, 2000))
+fam(ScenarioFamily('spawn', ('C06', 'C04', 'C05', 'C02'), gen.spawn_scenario, 200, 1500))
+fam(ScenarioFamily('dupfwd', BUS_PROPS + ('C07',), gen.dupfwd_scenario, 300, 3000))
+fam(ScenarioFamily('later', BUS_PROPS, gen.later_scenario, 400, 4000))
 fam(EnumFamily('error_enum', ('C11', 'C01'), gen.error_base, gen.error_derive, 12, 200, 40, 120))
 fam(EnumFamily('stop_enum', ('C16',), gen.stop_base, gen.stop_derive, 12, 200, 40, 150))
 fam(EnumFamily('cancel_enum', ('C16',), gen.stop_base, gen.cancel_derive, 6, 80, 30, 100))
@@ -197,7 +197,7 @@ chk(Check('C20', 'fault_enumeration', ['retry_semaphore'],
           'generated caller sets (limit 1-3; scopes global / class (two instances of one class, a second class) / self (two instances); 2-9 callers with distinct arrival and body times; raising bodies; lax and non-lax with acquisition timeouts 0.05-50 s); cancellation of one caller at enumerated instants (waiting and running); successive event loops in one process reusing the semaphore names; monitors: in-progress count per scope key at every body entry, entry instant vs FIFO counting-semaphore reference, fate vs reference, black-box capacity probe after quiescence (limit fresh callers enter at once, one more waits), registry semaphore value',
           'conservation monitor at the wrapped body + FIFO counting-semaphore reference model + capacity probe, with enumerated cancellation instants', [A_VT, 'arrival / duration / cancellation instants are pairwise distinct (no ties to arbitrate)', 'multiprocess scope is outside the property statement and not exercised']))
 
-fam(ScenarioFamily('expect_random', ('C18', 'C01'), gen.expect_random, 500, 10000))
+fam(ScenarioFamily('expect_random', ('C18', 'C01'), gen.expect_random, 1000, 10000))
 fam(EnumFamily('expect_cancel_enum', ('C18',), gen.expect_base, gen.expect_cancel_derive, 20, 300, 40, 120))
 chk(Check('C18', 'fault_enumeration', ['expect_random', 'expect_cancel_enum'],
           {'c18_expects': {'quick': 1500, 'thorough': 30000}, 'c18_matches': {'quick': 300, 'thorough': 6000}, 'c18_timeouts': {'quick': 300, 'thorough': 6000}, 'c18_cancellations': {'quick': 100, 'thorough': 3000}, 'c18_registry_checks': {'quick': 1500, 'thorough': 30000}},
